@@ -570,3 +570,33 @@ def local_values(fnode, expr, params=(), depth=0):
                 out += local_values(fnode, b, params, depth + 1)
             return out
     return [expr]
+
+
+def with_derived(atom, fnode):
+    """wrap a three-valued atom so that it also decides locals bound exactly once in fnode to a boolean expression over
+    decided atoms (`no_tag = tag is None or tag == '!'` ... `if no_tag:`): the hoisted-condition idiom."""
+    stores = {}
+    for x in ast.walk(fnode):
+        if isinstance(x, ast.Name) and isinstance(x.ctx, (ast.Store, ast.Del)):
+            stores[x.id] = stores.get(x.id, 0) + 1
+    derived = {}
+    for x in ast.walk(fnode):
+        if isinstance(x, ast.Assign) and len(x.targets) == 1 and isinstance(x.targets[0], ast.Name) \
+                and stores.get(x.targets[0].id) == 1 and isinstance(x.value, (ast.BoolOp, ast.Compare, ast.UnaryOp)):
+            derived[x.targets[0].id] = x.value
+    if not derived:
+        return atom
+    busy = set()
+
+    def wrapped(node):
+        v = atom(node)
+        if v is not None:
+            return v
+        if isinstance(node, ast.Name) and node.id in derived and node.id not in busy:
+            busy.add(node.id)
+            try:
+                return eval3(derived[node.id], wrapped)
+            finally:
+                busy.discard(node.id)
+        return None
+    return wrapped
